@@ -169,4 +169,19 @@ theorem C11_preflight_translated (icfg : ICfg) (h reqHdrs : HdrMap) (origin acrm
 
 #print axioms C11_preflight_translated
 
+
+/-- **C11 (translated closure).** The handler closure returned by `Wrap` — from the statement after its passthrough test on:
+the dispatch on the first `Origin` value, the method and the first `Access-Control-Request-Method` value, the calls of
+`handleNonCORS` / `handleCORSPreflight` / `handleCORSActual` and of the wrapped handler — is translated from /repo's middleware.go
+on every run, on top of the translated handlers and steps; as a function of (configuration, debug mode, request, response headers
+already present) it *is* `Serve.serve`, the function every theorem about responses in this development speaks about.  So the whole
+request path of middleware.go below the snapshot under the read lock is regenerated from the source and proved equal to the model;
+what stays hand-modelled there is `net/http.Header`, `maps.Copy`, `headers.First` (index level: `C17_ix_first`) and the
+functions the steps call (`origins.Parse`, `Tree.Contains`, `headers.Check`, `methods.IsSafelisted`, `Set.Contains`: C17's refinements). -/
+theorem C11_closure_translated (icfg : ICfg) (debug : Bool) (r : Req) (pre : HdrMap) :
+    Gen.GoSrc.serveClosure icfg debug r pre = Serve.serve icfg debug r pre :=
+  Translated.serveClosure_eq icfg debug r pre
+
+#print axioms C11_closure_translated
+
 end Cors
